@@ -730,7 +730,7 @@ def ex_null(case):
 
     def hook(event):
         if event.target is nl:
-            sent.append((event.time.nanoseconds, event.context.get("rid"), event.event_type))
+            sent.append((event.time.nanoseconds, event.context.get("rid")))
 
     if case.get("driver"):
         from happysimulator import Entity
@@ -757,6 +757,7 @@ def ex_null(case):
     if status == "done":
         if len(sent) != len(ts):
             r.add(f"{prefix}/request-not-handled", f"{len(sent)} of {len(ts)}")
+        log = [x[:2] for x in log]          # (instant, request id); the event type is not part of the statement
         if log != sent:
             i = next((k for k, (a, b) in enumerate(zip(log, sent)) if a != b), min(len(log), len(sent)))
             r.add(f"{prefix}/not-forwarded-once-in-order",
@@ -799,6 +800,6 @@ OBLIGATIONS = [Obligation(k, policy_strategy(k), ex_policy, {"quick": 2000, "tho
                "reaches that instance's downstream exactly once, in arrival order; per-window limit only for one instance with "
                "non-overlapping requests; non-trivial = non-zero store latency and at least one forward and one drop"),
     Obligation("null", null_strategy, ex_null, {"quick": 300, "thorough": 10000},
-               "NullRateLimiter: the downstream receives exactly the handled events, once, same instant, same type, same order; "
+               "NullRateLimiter: the downstream receives exactly the handled requests, once, at the same instant, in the same order; "
                "non-trivial = same-instant ties among >= 3 requests"),
 ]
